@@ -149,7 +149,7 @@ theorem walkList_id2 (f : List DNode → DNode → DNode × Out) : ∀ (ns befor
     rw [Out.append_evs, h2, h4, h3, h1]
     exact ⟨rfl, rfl⟩
 
-theorem subtree_id2 (X : SchemaX) (o : VOpts) (np : Bool) (hq1 : X.q.implicitInnerCase = false) : ∀ (fuel : Nat) (cx : Cx)
+theorem subtree_id2 (X : SchemaX) (o : VOpts) (np : Bool) (hq1 : X.q.implicitInnerCase = false) (hq3 : X.q.casesCountDefault = true) : ∀ (fuel : Nat) (cx : Cx)
     (before : List DNode) (n : DNode), StableN X o np n →
     (subtreeNode X o fuel cx before n).1 = n ∧ (subtreeNode X o fuel cx before n).2.evs = [] := by
   intro fuel
@@ -165,7 +165,7 @@ theorem subtree_id2 (X : SchemaX) (o : VOpts) (np : Bool) (hq1 : X.q.implicitInn
       have hall := (StableL_all X o np ks).1 hkids
       unfold subtreeNode
       dsimp only
-      obtain ⟨e1, e1'⟩ := validateNew_id2 X o (cx.descend X.base before (.inner s f m ks)) ks (fun n hn => (hall n hn).1) hnv
+      obtain ⟨e1, e1'⟩ := validateNew_id2 X hq3 o (cx.descend X.base before (.inner s f m ks)) ks (fun n hn => (hall n hn).1) hnv
       generalize validateNew X o (cx.descend X.base before (.inner s f m ks)) ks = r1 at e1 e1'
       obtain ⟨r1a, r1b⟩ := r1
       simp only at e1 e1'
@@ -204,7 +204,7 @@ end
 def StableTop (X : SchemaX) (o : VOpts) (T : List DNode) : Prop := implDoneX o X.top T = true ∧ NV X T ∧ StableL X o true T
 
 /-- on a stable tree a validation changes nothing and reports no change -/
-theorem validate_of_stable2 (X : SchemaX) (o : VOpts) (hq1 : X.q.implicitInnerCase = false) (T : List DNode)
+theorem validate_of_stable2 (X : SchemaX) (o : VOpts) (hq1 : X.q.implicitInnerCase = false) (hq3 : X.q.casesCountDefault = true) (T : List DNode)
     (h : StableTop X o T) : (validate X o T).tree = T ∧ (validate X o T).evs = [] := by
   by_cases hp : (o.present && T.isEmpty) = true
   · have hT : T = [] := by
@@ -216,10 +216,10 @@ theorem validate_of_stable2 (X : SchemaX) (o : VOpts) (hq1 : X.q.implicitInnerCa
   · have hp' : (o.present && T.isEmpty) = false := by simpa using hp
     obtain ⟨hdone, hnv, hst⟩ := h
     have hall := (StableL_all X o true T).1 hst
-    obtain ⟨e1, e1'⟩ := validateNew_id2 X o {} T (fun n hn => (hall n hn).1) hnv
+    obtain ⟨e1, e1'⟩ := validateNew_id2 X hq3 o {} T (fun n hn => (hall n hn).1) hnv
     have e2 : implL X o {} X.top T = (T, {}) := implL_of_doneX X o {} hq1 X.top T hdone
     obtain ⟨e3, e3'⟩ := walkList_id2 (subtreeNode X o (walkFuel X T) {}) T []
-      (fun b x hx => subtree_id2 X o true hq1 _ {} b x (hall x hx).2)
+      (fun b x hx => subtree_id2 X o true hq1 hq3 _ {} b x (hall x hx).2)
     obtain ⟨ht, he⟩ := validate_evs_eq X o T hp'
     rw [e1, e2] at ht he
     dsimp only at ht he
@@ -601,6 +601,7 @@ theorem validate_stable2 (X : SchemaX) (o : VOpts) (hq1 : X.q.implicitInnerCase 
 
 /-- **`validate_idempotent` with `choice` / `case`** -/
 theorem validate_idempotent2 (X : SchemaX) (o : VOpts) (hq1 : X.q.implicitInnerCase = false) (hq2 : X.q.autodelDirectCase = false)
+    (hq3 : X.q.casesCountDefault = true)
     (hl : KidsLookupOk X) (hw : CaseWf X) (t : List DNode) (hB : NoNpContInCase X ∨ (npInvL X.base t ∧ newExplL t))
     (hp : placedCL X X.top t = true) (hh : sheightL X.top ≤ walkFuel X t) :
     (validate X o (validate X o t).tree).tree = (validate X o t).tree ∧
@@ -614,7 +615,7 @@ theorem validate_idempotent2 (X : SchemaX) (o : VOpts) (hq1 : X.q.implicitInnerC
     unfold validate
     simp only [hpe', if_true]
     exact ⟨trivial, rfl⟩
-  · exact validate_of_stable2 X o hq1 _ (validate_stable2 X o hq1 hq2 hl hw t hB hp hh (by simpa using hpe))
+  · exact validate_of_stable2 X o hq1 hq3 _ (validate_stable2 X o hq1 hq2 hl hw t hB hp hh (by simpa using hpe))
 
 end LyModel.Valid
 
@@ -659,6 +660,7 @@ theorem StableTop_spec (X : SchemaX) (o : VOpts) (T : List DNode) :
 
 /-- **the trees a validation leaves as they are are exactly the stable ones** -/
 theorem validate_fixpoint_iff2 (X : SchemaX) (o : VOpts) (hq1 : X.q.implicitInnerCase = false) (hq2 : X.q.autodelDirectCase = false)
+    (hq3 : X.q.casesCountDefault = true)
     (hl : KidsLookupOk X) (hw : CaseWf X) (T : List DNode) (hB : NoNpContInCase X ∨ (npInvL X.base T ∧ newExplL T))
     (hp : placedCL X X.top T = true) (hh : sheightL X.top ≤ walkFuel X T) (hpe : (o.present && T.isEmpty) = false) :
     ((validate X o T).tree = T ∧ (validate X o T).evs = []) ↔ StableTop X o T := by
@@ -667,6 +669,6 @@ theorem validate_fixpoint_iff2 (X : SchemaX) (o : VOpts) (hq1 : X.q.implicitInne
     have := validate_stable2 X o hq1 hq2 hl hw T hB hp hh hpe
     rw [h.1] at this
     exact this
-  · exact validate_of_stable2 X o hq1 T
+  · exact validate_of_stable2 X o hq1 hq3 T
 
 end LyModel.Valid
